@@ -173,6 +173,12 @@ def generate(prop, seed, tier):
             for _ in range(it["total"] if rng.random() < 0.85 else rng.randrange(0, it["total"] + 1)):
                 work.append([idx, rng.choice([0.0, 0.0, 0.5, 1.0, 5.0, 45.0, 700.0]),
                              "failed" if rng.random() < 0.2 else "completed"])
+        if seed % 23 == 5:
+            # many failures in one run (max_errors=None on a large plan): more than the display keeps tracebacks for -
+            # every one of them still counts
+            big = dict(section="run", scope=scopes[0], total=rng.choice([129, 140, 200]))
+            items.append(big)
+            work.extend([len(items) - 1, 0.0, "failed"] for _ in range(big["total"]))
         rng.shuffle(work)
         # stale section strictly before run section (as run does)
         work.sort(key=lambda w: 0 if items[w[0]]["section"] == "stale" else 1)
